@@ -252,4 +252,8 @@ ITEMS = [
          r"const char \*cell = p;\s*while \(cell != lend && \(isspace\(\*cell\) \|\| \*cell == '\\v'\)\) \{\s*\+\+cell;\s*\}\s*if \(cell == lend\) \{\s*v = DType\(0\);\s*endptr = const_cast<char \*>\(p\);",
          r'char \*endptr;\s*DType v;\s*// if DType is float32\s*if \(std::is_same<DType, real_t>::value\) \{\s*v = strtof',
          'a cell that is blank up to the line end is a missing value, no conversion'),
+    flag('fixCsvBomGuard', CSV,
+         r"IgnoreUTF8BOM\(&lbegin, &end\);\s*if \(lbegin == end \|\| \*lbegin == '\\n' \|\| \*lbegin == '\\r'\) \{[^}]*?while \(\(lbegin != end\) && \(\*lbegin == '\\n' \|\| \*lbegin == '\\r'\)\) \{\s*\+\+lbegin;\s*\}\s*continue;",
+         r"IgnoreUTF8BOM\(&lbegin, &end\);\s*lend = lbegin \+ 1;",
+         'a line that holds nothing but a BOM is skipped like an empty line (no `lend = lbegin + 1` past the block end)'),
 ]
